@@ -410,7 +410,8 @@ type dataCloser struct {
 func (d *dataCloser) Close() error {
 	d.c.mutex.Lock()
 	_ = d.WriteCloser.Close()
-	_, _, err := d.c.Text.ReadResponse(250)
+	// any positive completion reply (2yz) means that the server has taken the message
+	_, _, err := d.c.Text.ReadResponse(2)
 	d.c.dropIfNoReply(err)
 	d.c.mutex.Unlock()
 	return err
